@@ -8,7 +8,7 @@ LEVEL = 'exploration'
 ENGINE = 'grid'
 TECHNIQUE = 'bounded exhaustive evaluation of a frozen function table on a finite exact-argument lattice at every rung of a precision ladder; reference = agreement of two higher rungs + identity/exact-value anchors'
 RULE = ('zeta (Riemann, Hurwitz, derivatives), altzeta, dirichlet (characters mod 1,3,4,5), polylog, lerchphi, bernpoly, eulerpoly, stieltjes, '
-        'primezeta, siegeltheta, siegelz, riemannr on exact dyadic arguments: real s in [-30.5, 60] incl. 1 +- 2^-j, the critical line at '
+        'primezeta, siegeltheta, siegelz, riemannr on exact dyadic arguments: real s in [-30.5, 60] incl. 1 +- 2^-j (j = 4, 20, p/2+5, p/2+14, 3p/4, p-6, p+30), primezeta also at s = p+2, 1.3p, 1.6p, 2p+3, 3p, the critical line at '
         't in {1/8, 1, 14.125, 50, 1000, 10000}, negative (half-)integers, Hurwitz parameters {1/4,1/2,3/2,10,1+i}, polylog orders '
         '{-3..6, 1/2, 2+i} x arguments inside / in the annulus 3/4..11/8 / outside / on the unit circle.  Bound 2^(8-p) relative against the '
         '3p+200-bit value (which must agree with the 2p+100-bit value).  Anchors: zeta(2)=pi^2/6, zeta(-1)=-1/12, altzeta=(1-2^(1-s))zeta, '
@@ -17,7 +17,7 @@ ASSUMPTIONS = ['O-ladder: an error common to all precisions is only caught by th
 BOUNDS = {'quick': '3 precisions', 'thorough': '8 precisions'}
 
 S_REAL = lambda p: [R(-61, 2), R(-10), R(-11, 2), R(-2), R(-1), R(-1, 2), R(0), R(1, 4), R(1, 2), R(3, 4), R(3, 2), R(2), R(3), R(9, 2), R(10), R(121, 4), R(60)] + \
-    [R(1) + s * R(1, 1 << j) if False else grid.mk(0, (1 << j) + s, -j) for j in (4, 20, max(5, p - 6)) for s in (1, -1)]
+    [R(1) + s * R(1, 1 << j) if False else grid.mk(0, (1 << j) + s, -j) for j in (4, 20, max(5, p - 6), p // 2 + 5, p // 2 + 14, (3 * p) // 4, p + 30) for s in (1, -1)]
 S_CPLX = lambda p: [(R(1, 2), R(1, 8)), (R(1, 2), R(1)), (R(1, 2), R(113, 8)), (R(1, 2), R(50)), (R(2), R(3)), (R(-7, 2), R(2)), (R(1, 4), R(-30)), (R(3, 4), R(1000))]
 S_CRIT_BIG = lambda p: [(R(1, 2), R(10000)), (R(1, 4), R(30000))]
 
@@ -76,7 +76,7 @@ TABLE = [
     dict(fn='bernpoly', args=lambda p: [(n, x) for n in (0, 1, 2, 5, 10, 25) for x in (R(1, 2), R(3, 4), R(-5, 2), R(10), (R(1), R(1)), R(1, 1 << 20))]),
     dict(fn='eulerpoly', args=lambda p: [(n, x) for n in (0, 1, 2, 5, 10, 25) for x in (R(1, 2), R(3, 4), R(-5, 2), R(10), (R(1), R(1)), R(1, 1 << 20))]),
     dict(fn='stieltjes', args=lambda p: [(2, R(3, 2)), (1, R(5, 2))] + [(n,) for n in range(0, 6)] + [(3, R(1, 2))], budget=60, maxprec=120, anchors=[('literature value of gamma_n', a_stieltjes)]),      # generalized constants first: the cache is keyed by n
-    dict(fn='primezeta', args=one(lambda p: [R(2), R(3), R(5, 2), R(10), (R(2), R(1)), R(3, 2), R(30), R(max(3, p - 14)), R(max(3, p - 12)), R(max(3, p - 10)), R(max(3, (3 * p) // 4)), R(max(4, p // 2))]), budget=40, maxprec=120),
+    dict(fn='primezeta', args=one(lambda p: [R(2), R(3), R(5, 2), R(10), (R(2), R(1)), R(3, 2), R(30), R(max(3, p - 14)), R(max(3, p - 12)), R(max(3, p - 10)), R(max(3, (3 * p) // 4)), R(max(4, p // 2)), R(p + 2), R((13 * p) // 10), R((8 * p) // 5 + 1, 1), R(2 * p + 3), R(3 * p)]), budget=40, maxprec=120),
     dict(fn='siegeltheta', args=one(lambda p: [R(1, 8), R(1), R(113, 8), R(50), R(1000), R(10000), R(100000), (R(5), R(1, 2))])),
     dict(fn='siegelz', args=one(lambda p: [R(1, 8), R(1), R(113, 8), R(50), R(1000), R(10000)]), budget=60, maxprec=120),
     dict(fn='riemannr', args=one(lambda p: [R(2), R(21, 2), R(1000), R(1000000), R(1, 2), R(10 ** 12)]), budget=40),
